@@ -138,6 +138,11 @@ impl Connection {
     pub async fn read_datagram(&self) -> Result<bytes::Bytes, ConnectionError> {
         self.inner.read_datagram().await
     }
+
+    #[cfg(bmwill_anemo_verif)]
+    pub(crate) fn close_reason_for_verif(&self) -> Option<String> {
+        self.inner.close_reason().map(|e| e.to_string())
+    }
 }
 
 impl fmt::Debug for Connection {
